@@ -375,7 +375,7 @@ class Segment:
         snap_before = self.bridge.snapshot(entry["obj"])
         fault = op.get("fault")
         intended = None
-        if fault is not None and fault["kind"] == "tear" and fmt == "uvl":
+        if fault is not None and fault["kind"] == "tear" and fmt in ("uvl", "afm"):
             # what the killed writer meant to leave on the disk (serialisation is a pure function
             # of the model, C12), to judge the torn file the next interpreter finds
             try:
@@ -401,7 +401,9 @@ class Segment:
                         try:
                             cut = len(after.decode("utf-8"))
                             from . import peers
-                            must_raise = peers.uvl_prefix_is_invalid(intended, cut)
+                            judge = peers.uvl_prefix_is_invalid if fmt == "uvl" else \
+                                peers.afm_prefix_is_invalid
+                            must_raise = judge(intended, cut)
                         except UnicodeDecodeError:
                             must_raise = True     # cut inside a multi-byte character
                 self.files[rel] = {"fmt": fmt, "state": "torn", "ref": None,
